@@ -1,2 +1,233 @@
-(* C05: statements only; theorems are added as the model of the anchored mechanism is proved *)
-From GGRS Require Import Base.
+(* C05 (link half) — "a lost acknowledgement, in any protocol state and for any prediction-window setting,
+   cannot leave the receiver permanently unable to accept the sender's retransmissions.  The synchronisation
+   handshake likewise completes under any loss pattern that eventually lets packets through."
+   Statements only; every proof is `exact <lemma>` (lemmas in EndpointLink.v, building on EndpointSafety.v).
+   Model: Endpoint.v (src/network/protocol.rs, correspondence level `endpoint`), current code, both build profiles.
+   The link model: a sender S and a receiver R (both Running), the steps [epl_step]: send_input at S (consecutive
+   frames, at most PENDING_OUTPUT_SIZE unacknowledged before the call), poll of either endpoint at any time, and
+   delivery of ANY packet ever queued by one endpoint to the other at any time, any number of times (send queues
+   are never drained in the model: loss = never delivered, duplication, delay and reordering are all covered).
+   Window: 0 <= max_prediction < 2^30 (eps_window_ok), in particular 0 and 1.  Codec: C14 (CodecProofs.codec_roundtrip). *)
+From GGRS Require Import Base Consts TimeSync Codec Endpoint EndpointSpec EndpointProofs EndpointSafety EndpointLink.
+Open Scope Z_scope.
+
+(* (a) re-ack (b2421d6, first half): for EVERY receiver state, an Input packet whose base frame start_frame - 1 is not
+   kept and whose start_frame <= last_recv_frame is answered with InputAck(last_recv_frame); nothing else changes
+   in recv_inputs *)
+Theorem C05_reack : forall dbg now nonce m st dr sf af bytes R,
+  m_body m = Input st dr sf af bytes -> passes_filters R m = true -> eps_wf R ->
+  dr = true \/ Z.of_nat (length st) = u_num_players R -> 0 <= sf ->
+  alookup (sf - 1) (u_recv_inputs R) = None -> sf <= last_recv_frame R ->
+  exists R', handle_message dbg now nonce m R = Ok R' /\
+    u_send_queue R' = u_send_queue R ++ [mkMsg (u_magic R) (InputAck (last_recv_frame R))] /\
+    u_recv_inputs R' = u_recv_inputs R /\ u_state R' = u_state R.
+Proof. exact epl_reack. Qed.
+
+(* (a) retain rule (b2421d6, second half): whatever a packet with start_frame sf makes the receiver do, the entry
+   sf - 1 it was encoded against is still there afterwards - a sender whose base is A is served by a receiver that
+   decoded a packet based on A for as long as it keeps that base *)
+Theorem C05_base_never_dropped : forall dbg now nonce m st dr sf af bytes R R' b,
+  m_body m = Input st dr sf af bytes -> handle_message dbg now nonce m R = Ok R' ->
+  eps_ri_ok R -> eps_window_ok R ->
+  alookup (sf - 1) (u_recv_inputs R) = Some b -> alookup (sf - 1) (u_recv_inputs R') = Some b.
+Proof. exact epl_base_never_dropped. Qed.
+
+(* (b) an acknowledgement for a pending frame a moves the base: pending_output becomes the frames above a,
+   last_acked_input the entry a, and the next packet starts at a + 1 and is encoded against the bytes of a *)
+Theorem C05_ack_moves_base : forall dbg now nonce m S f0 pre a b post,
+  u_pending_output S = pre ++ (a, b) :: post -> epl_consec f0 (u_pending_output S) ->
+  passes_filters S m = true -> m_body m = InputAck a ->
+  exists S', handle_message dbg now nonce m S = Ok S' /\
+    u_pending_output S' = post /\ u_last_acked S' = (a, b) /\
+    forall cs, epl_packet cs S' =
+      match post with
+      | [] => None
+      | _ => Some (mkMsg (u_magic S) (Input cs (pstate_eqb (u_state S) PDisconnected) (a + 1) (last_recv_frame S)
+                                            (Codec.encode b (map snd post))))
+      end.
+Proof. exact epl_ack_moves_base. Qed.
+
+(* the ack_frame of an Input packet (not dropped at its header) pops in the same way *)
+Theorem C05_input_ack_pops : forall dbg now nonce m st dr sf af bytes S S',
+  m_body m = Input st dr sf af bytes -> passes_filters S m = true ->
+  dr = true \/ Z.of_nat (length st) = u_num_players S -> 0 <= sf ->
+  handle_message dbg now nonce m S = Ok S' ->
+  (u_pending_output S', u_last_acked S') = pop_pending af (u_pending_output S) (u_last_acked S).
+Proof. exact epl_input_ack_pops. Qed.
+
+Theorem C05_pop_consec : forall f pre a b post la,
+  epl_consec f (pre ++ (a, b) :: post) -> pop_pending a (pre ++ (a, b) :: post) la = (post, (a, b)).
+Proof. exact epl_pop_consec. Qed.
+
+(* [epl_packet cs S] is the packet send_pending_output queues; S's retry timer: a poll more than
+   RUNNING_RETRY_INTERVAL after the last input traffic queues it again *)
+Theorem C05_retry_fires : forall now nonce cs S out S' P,
+  u_state S = PRunning -> u_last_input_recv S + RUNNING_RETRY_INTERVAL < now ->
+  poll now nonce cs S = Ok (out, S') -> epl_packet cs S = Some P ->
+  In P (u_send_queue S') /\ epl_packet cs S' = Some P.
+Proof. exact epl_retry_fires. Qed.
+
+(* (c) the link invariant [epl_inv nh f0 S R sent] (DESIGN.md A.3): sent = consecutive frames from f0 of 4*nh bytes,
+   none above i32::MAX; pending_output(S) = the suffix of sent above last_acked_input(S), which is the entry before it
+   (blank before the first ack), at most PENDING_OUTPUT_SIZE + 1 entries; R's stored frames carry S's bytes (key -1 =
+   blank), recv_inputs(R) has distinct keys, is never empty (so it contains last_recv_frame(R)); last_acked(S) <=
+   last_recv_frame(R); every Input packet S ever queued is a segment of sent encoded against the entry before it;
+   every acknowledgement R ever queued is <= last_recv_frame(R) and a frame of sent.
+   It is preserved by every step of the link, for every loss / duplication / delay / reordering pattern: *)
+Theorem C05_link_invariant : forall dbg nh f0 S R sent S' R' sent',
+  epl_inv nh f0 S R sent -> epl_step dbg nh f0 (S, R, sent) (S', R', sent') -> epl_inv nh f0 S' R' sent'.
+Proof. exact epl_inv_step. Qed.
+
+Theorem C05_link_invariant_reachable : forall dbg nh f0 x y, epl_steps dbg nh f0 x y ->
+  epl_inv nh f0 (fst (fst x)) (snd (fst x)) (snd x) -> epl_inv nh f0 (fst (fst y)) (snd (fst y)) (snd y).
+Proof. exact epl_inv_steps. Qed.
+
+(* it holds when both endpoints have just become Running (nothing sent, nothing received) *)
+Theorem C05_link_invariant_initial : forall nh f0 S R,
+  0 <= f0 -> (1 <= nh)%nat -> 4 * Z.of_nat nh <= 65535 -> f0 - 1 <= TS_I32_MAX ->
+  u_state S = PRunning -> u_pending_output S = [] -> u_last_acked S = (NULL, epl_zeros nh) ->
+  u_state R = PRunning -> eps_inv R -> eps_window_ok R -> length (u_handles R) = nh ->
+  u_recv_inputs R = [(NULL, epl_zeros nh)] ->
+  Forall (fun m => epl_plain (m_body m) = true) (u_send_queue S) ->
+  Forall (fun m => epl_plain (m_body m) = true) (u_send_queue R) ->
+  epl_inv nh f0 S R [].
+Proof. exact epl_inv_initial. Qed.
+
+(* in every reachable link state R keeps the entry of last_recv_frame(R), which is -1 or a frame of the stream *)
+Theorem C05_receiver_keeps_last : forall nh f0 S R sent, epl_inv nh f0 S R sent ->
+  exists b, alookup (last_recv_frame R) (u_recv_inputs R) = Some b /\
+    -1 <= last_recv_frame R <= f0 + Z.of_nat (length sent) - 1 /\
+    (last_recv_frame R = NULL \/ In (last_recv_frame R, b) sent).
+Proof. exact epl_receiver_keeps_last. Qed.
+
+(* (c) wedge-freedom: in EVERY reachable link state with something pending, the exchange
+     S's current packet (what its retry timer sends, C05_retry_fires) reaches R;
+     R's answer reaches S;  S's next packet (if any) reaches R
+   runs without panic or error and ends with last_recv_frame(R) = the newest frame S was given.
+   [epl_compat]: each side accepts the other's magic and S's connect-status vector has the length R expects. *)
+Theorem C05_exchange_reaches_newest : forall dbg nh f0 S R sent cs t1 t2 t3,
+  epl_inv nh f0 S R sent -> epl_compat S R cs -> u_pending_output S <> [] ->
+  exists S1 R2, epl_exchange dbg t1 t2 t3 cs S R = Ok (S1, R2) /\
+    last_recv_frame R2 = f0 + Z.of_nat (length sent) - 1.
+Proof. exact epl_exchange_reaches_newest. Qed.
+
+(* what R does with any packet of the stream: it re-acknowledges (base gone, packet stale) or decodes it up to its
+   last frame and acknowledges that - never the silent drop of the code before b2421d6 *)
+Theorem C05_good_packet_handled : forall dbg nh f0 R sent m st start ack bytes now nonce a frames c base,
+  0 <= f0 -> (1 <= nh)%nat -> 4 * Z.of_nat nh <= 65535 ->
+  epl_sent_ok nh f0 sent -> epl_receiver_ok nh R sent -> m_body m = Input st false start ack bytes ->
+  epl_packet_is nh f0 R sent start bytes a frames c base -> epl_accepts R m st ->
+  exists R1, handle_message dbg now nonce m R = Ok R1 /\
+    ((alookup (start - 1) (u_recv_inputs R) = None /\ 0 <= start <= last_recv_frame R /\
+      u_recv_inputs R1 = u_recv_inputs R /\
+      u_send_queue R1 = u_send_queue R ++ [mkMsg (u_magic R) (InputAck (last_recv_frame R))]) \/
+     (last_recv_frame R1 = Z.max (last_recv_frame R) (start + Z.of_nat (length frames) - 1) /\
+      u_send_queue R1 = u_send_queue R ++ [mkMsg (u_magic R) (InputAck (last_recv_frame R1))])).
+Proof. exact epl_handle_good_packet. Qed.
+
+(* (d) handshake progress.  A reply to an outstanding request is a matched round trip ... *)
+Theorem C05_round_trip_progress : forall dbg t fresh n A B,
+  u_state A = PSynchronizing -> u_remote_magic A = 0 -> zmem n (u_sync_requests A) = true ->
+  1 <= u_sync_remaining A <= NUM_SYNC_PACKETS -> epl_answers A B ->
+  exists A' B', epl_round_trip dbg t fresh n A B = Ok (A', B') /\
+    In (mkMsg (u_magic B) (SyncReply n)) (u_send_queue B') /\
+    match_of A (OMessage t fresh (mkMsg (u_magic B) (SyncReply n))) = [(n, u_magic B)] /\
+    u_sync_remaining A' = u_sync_remaining A - 1 /\ u_magic A' = u_magic A /\ u_magic B' = u_magic B /\
+    epl_answers A' B' /\
+    ((1 < u_sync_remaining A /\ u_state A' = PSynchronizing /\ u_remote_magic A' = 0 /\
+      zmem fresh (u_sync_requests A') = true) \/
+     (u_sync_remaining A = 1 /\ u_state A' = PRunning /\ u_remote_magic A' = u_magic B)).
+Proof. exact epl_round_trip_progress. Qed.
+
+(* ... if the request was lost, the retry timer sends a fresh one ... *)
+Theorem C05_sync_retry : forall now nonce cs A,
+  u_state A = PSynchronizing -> u_last_sync_request_time A + SYNC_RETRY_INTERVAL < now ->
+  exists out A', poll now nonce cs A = Ok (out, A') /\
+    u_state A' = PSynchronizing /\ u_sync_remaining A' = u_sync_remaining A /\ u_remote_magic A' = u_remote_magic A /\
+    u_magic A' = u_magic A /\ zmem nonce (u_sync_requests A') = true /\
+    In (mkMsg (u_magic A) (SyncRequest nonce)) (u_send_queue A').
+Proof. exact epl_sync_retry. Qed.
+
+(* ... so as many fault-free round trips as remain (5 - k) reach Running, with the replier's magic ... *)
+Theorem C05_handshake_completes : forall dbg t fresh n A B,
+  u_state A = PSynchronizing -> u_remote_magic A = 0 -> zmem n (u_sync_requests A) = true ->
+  1 <= u_sync_remaining A <= NUM_SYNC_PACKETS -> epl_answers A B ->
+  Z.of_nat (length fresh) = u_sync_remaining A ->
+  exists A' B', epl_round_trips dbg t n fresh A B = Ok (A', B') /\
+    u_state A' = PRunning /\ u_remote_magic A' = u_magic B /\ u_sync_remaining A' = 0.
+Proof. exact epl_handshake_completes. Qed.
+
+(* ... in every reachable Synchronizing state k = matched = NUM_SYNC_PACKETS - remaining (C12_handshake_count's
+   count), 1 <= remaining <= 5, the peer's magic unknown; a reply to an outstanding request makes it k + 1 ... *)
+Theorem C05_matched_synchronizing : forall now0 magic handles np lp mp timeout notify fps desync dbg ops A evs,
+  let s0 := ep_new now0 magic handles np lp mp timeout notify fps desync in
+  run dbg s0 ops = Ok (A, evs) -> u_state A = PSynchronizing ->
+  matched dbg s0 ops = NUM_SYNC_PACKETS - u_sync_remaining A /\
+  1 <= u_sync_remaining A <= NUM_SYNC_PACKETS /\ u_remote_magic A = 0 /\
+  forall t fresh mg n A', zmem n (u_sync_requests A) = true ->
+    handle_message dbg t fresh (mkMsg mg (SyncReply n)) A = Ok A' ->
+    matched dbg s0 (ops ++ [OMessage t fresh (mkMsg mg (SyncReply n))]) = matched dbg s0 ops + 1.
+Proof. exact epl_matched_synchronizing. Qed.
+
+(* ... and nothing that arrives in between (stray, duplicate, foreign replies, anything) decreases k; such replies
+   change nothing of the handshake state (= C12_unmatched_reply_no_effect) *)
+Theorem C05_matched_monotone : forall dbg a b s, matched dbg s a <= matched dbg s (a ++ b).
+Proof. exact epl_matched_monotone. Qed.
+
+Theorem C05_unmatched_reply_no_effect : forall dbg now nonce magic n s s',
+  match_of s (OMessage now nonce (mkMsg magic (SyncReply n))) = [] ->
+  handle_message dbg now nonce (mkMsg magic (SyncReply n)) s = Ok s' ->
+  u_state s' = u_state s /\ u_sync_remaining s' = u_sync_remaining s /\
+  u_sync_requests s' = u_sync_requests s /\ u_remote_magic s' = u_remote_magic s /\
+  ~ In EvSynchronized (skipn (length (u_event_queue s)) (u_event_queue s')).
+Proof. exact unmatched_reply_no_effect. Qed.
+
+(* The code before b2421d6 ([epl_handle_message_old]: pruning threshold last_recv_frame - 2*max_prediction, no
+   re-acknowledgement) wedges: window 0, S sends frame 0, R's InputAck(0) is lost, S sends frame 1 and retransmits
+   twice (retry timer at 300 and 600).  Rows = after handshake / frame 0 / frame 1 / retry / retry; columns =
+   (S last_acked frame, |pending_output(S)|, Input packets sent by S; R last_recv_frame, |recv_inputs(R)|, |send_queue(R)|):
+   R ignores all three packets carrying frame 1 (last_recv_frame stays 0, nothing queued), S's base stays NULL *)
+Theorem C05_lost_ack_wedges_refuted :
+  epl_wedge_history (fun now m R => epl_handle_message_old true now 0 m R) =
+  Ok [(-1, 0%nat, 0%nat, -1, 1%nat, 5%nat);
+      (-1, 1%nat, 1%nat, 0, 1%nat, 6%nat);
+      (-1, 2%nat, 2%nat, 0, 1%nat, 6%nat);
+      (-1, 2%nat, 3%nat, 0, 1%nat, 6%nat);
+      (-1, 2%nat, 4%nat, 0, 1%nat, 6%nat)].
+Proof. exact epl_lost_ack_wedges_refuted. Qed.
+
+(* the current code on the same history *)
+Theorem C05_lost_ack_repaired :
+  epl_wedge_history (fun now m R => handle_message true now 0 m R) =
+  Ok [(-1, 0%nat, 0%nat, -1, 1%nat, 5%nat);
+      (-1, 1%nat, 1%nat, 0, 2%nat, 6%nat);
+      (-1, 2%nat, 2%nat, 1, 3%nat, 7%nat);
+      (-1, 2%nat, 3%nat, 1, 3%nat, 8%nat);
+      (-1, 2%nat, 4%nat, 1, 3%nat, 9%nat)].
+Proof. exact epl_lost_ack_repaired. Qed.
+
+(* non-vacuity of (c): window 0, first frame 2 (input delay); R decoded frame 2 against the blank entry, pruned it,
+   its ack was lost; S has frames 2 and 3 pending with base NULL.  The state is reachable in the link model
+   (invariant holds), R has neither the entry -1 nor an entry 1: the exchange goes through the re-acknowledgement *)
+Example C05_link_example :
+  epl_inv 1 2 epl_x_S2 epl_x_R1 epl_x_sent /\ epl_compat epl_x_S2 epl_x_R1 w_status /\
+  u_pending_output epl_x_S2 <> [] /\
+  last_recv_frame epl_x_R1 = 2 /\ alookup 1 (u_recv_inputs epl_x_R1) = None /\
+  alookup (-1) (u_recv_inputs epl_x_R1) = None /\ fst (u_last_acked epl_x_S2) = NULL /\
+  exists S' R', epl_exchange true 300 301 302 w_status epl_x_S2 epl_x_R1 = Ok (S', R') /\
+    last_recv_frame R' = 3 /\ fst (u_last_acked S') = 2.
+Proof. exact epl_link_example. Qed.
+
+(* non-vacuity of (d) *)
+Example C05_handshake_example :
+  exists A evs A' B', run true w_new [OSynchronize 0 100] = Ok (A, evs) /\
+    u_state A = PSynchronizing /\ u_remote_magic A = 0 /\ zmem 100 (u_sync_requests A) = true /\
+    u_sync_remaining A = 5 /\ epl_answers A epl_w_newR /\
+    epl_round_trips true 1 100 [101; 102; 103; 104; 105] A epl_w_newR = Ok (A', B') /\
+    u_state A' = PRunning /\ u_remote_magic A' = 7.
+Proof. exact epl_handshake_example. Qed.
+
+Check C05_exchange_reaches_newest : forall dbg nh f0 S R sent cs t1 t2 t3,
+  epl_inv nh f0 S R sent -> epl_compat S R cs -> u_pending_output S <> [] ->
+  exists S1 R2, epl_exchange dbg t1 t2 t3 cs S R = Ok (S1, R2) /\
+    last_recv_frame R2 = f0 + Z.of_nat (length sent) - 1.
